@@ -411,6 +411,8 @@ def main(argv):
         ends = 0
         faulty = sum(1 for c in cases[:done] if c["meta"]["faulty"])
         refused = 0
+        foreign = 0
+        forcedgc = 0
         distinct = set()
         for c, r in zip(cases[:done], results):
             for k, v in r["log"]["probes"].items():
@@ -420,6 +422,8 @@ def main(argv):
             if r["kind"] == "END":
                 ends += 1
             refused += r["log"]["z"].get("sbrk_refused", 0)
+            foreign += r["log"]["z"].get("sbrk_foreign", 0)
+            forcedgc += r["log"]["z"].get("forcedgc", 0)
             for o in c["meta"]["ops"]:
                 ops_seen[o] = ops_seen.get(o, 0) + 1
             if r.get("stats", {}).get("allocs", 0) >= 2:
@@ -436,7 +440,9 @@ def main(argv):
             "histories_planned": len(cases), "histories_run": done,
             "histories_with_os_faults": faulty, "histories_fault_free": done - faulty,
             "histories_cut_short_cantbuild": ends,
-            "os_refusals_delivered": refused,
+            "os_refusals_delivered": refused, "foreign_break_movements": foreign, "forced_collections_by_plan": forcedgc,
+            "faults_injected": {"sbrk refused (x op / arena cap)": refused, "foreign break movement (o op)": foreign,
+                                "forced collection at an allocation (plan)": forcedgc},
             "operations_executed": stats.get("steps", 0),
             "harness_totals": stats,
             "reach_probes": dict((names[k], v) for k, v in sorted(probes.items())),
